@@ -142,9 +142,13 @@ def setup(M):
         def post(ret, a, k, snap):
             x = a[0]
             tz = a[1] if len(a) > 1 else k.get("tz")
-            if x.tzinfo is None or judge.zkind(x)[0] == "foreign" or not judge.valid_local(x):
+            # (a source that carries a non-pendulum tzinfo - what astimezone(<stdlib tzinfo>), fromisoformat() or the plain
+            #  constructor leave on a DateTime - is judged like any other: its instant is its own fields - its own utcoffset())
+            if x.tzinfo is None or x.utcoffset() is None or (judge.zkind(x)[0] != "foreign" and not judge.valid_local(x)):
                 M.count(name + ".skipped")
                 return
+            if judge.zkind(x)[0] == "foreign":
+                M.count(name + ".foreign_tzinfo_sources")
             want = _want_of_arg(pendulum, tz)
             if want is None and not isinstance(tz, (Timezone, FixedTimezone)):
                 if name == "astimezone" and isinstance(tz, dt.tzinfo):
@@ -408,6 +412,20 @@ def run(M, c):
                     hours=hrs, got=judge.desc(th))
         except (OverflowError, ValueError):
             M.count("hours_target_out_of_range")
+    # B carries a standard-library tzinfo (the result of astimezone(ZoneInfo / datetime.timezone)): converting it again -
+    # astimezone, in_tz, convert - must start from B's instant and agree with the direct conversion
+    stz = (zoneinfo.ZoneInfo(("Asia/Kolkata", "America/Sao_Paulo", "Europe/Paris", "Pacific/Chatham")[c["u"] // 3 % 4]) if c["u"] % 3 == 0 else
+           dt.timezone(dt.timedelta(seconds=(-25200, 20700, 3600, -12600, 45296)[c["u"] // 3 % 5])) if c["u"] % 3 == 1 else dt.timezone.utc)
+    try:
+        f = a.astimezone(stz)                  # contract judges (instant)
+        f2 = f.astimezone(ttz)                 # contract judges against the target
+        f3 = f.in_tz(tgt if isinstance(tgt, str) else ttz)   # contract judges
+        f4 = ttz.convert(f)                    # contract judges
+        okf = all((fields(v), off_us(v)) == (fields(b2), off_us(b2)) for v in (f2, f3, f4)) and isinstance(f2, DateTime)
+        M.check("path", okf, "C01/path-dependence:via-stdlib-tzinfo", "A->B->C differs from A->C when B carries a standard-library tzinfo",
+                a=judge.desc(a), b=f.isoformat(), b_tzinfo=repr(stz), via=[judge.desc(f2), judge.desc(f3), judge.desc(f4)], direct=judge.desc(b2))
+    except (OverflowError, ValueError):
+        M.count("via_stdlib_out_of_range")
     # path independence A->B->C vs A->C
     third = c["third"]
     p1, p2 = b.in_tz(third), a.in_tz(third)
